@@ -13,6 +13,7 @@
    Strings are byte lists.  xxhash is an argument [H].  No proofs here. *)
 From Coq Require Import List ZArith Bool.
 From VLib Require Import Codec Machine.
+From VModel Require Matchers.
 Import ListNotations.
 Open Scope Z_scope.
 
@@ -109,36 +110,31 @@ Fixpoint join (vs : list str) : str :=
 Definition value_from (m : md) (k : str) : option str :=
   match vals m k with [] => None | vs => Some (join vs) end.
 
-(* header matchers. kind 0 present (h_a <> 0 = "present" wanted), 1 exact, 2 prefix,
-   3 suffix, 4 contains *)
-Record hmatch := mkh { h_kind : Z; h_inv : bool; h_a : Z; h_name : str; h_arg : str }.
+(* header matchers are those of C47 (coq/model/Matchers.v), evaluated on the metadata grouped
+   by key: kind 1..4 / 7..10 string matchers exact/prefix/suffix/contains (7..10 with
+   ignore_case = h_a), 5 range [h_a, h_b), 6 present (h_a), 11 regex (h_re).  RouteToMatcher
+   builds them from RegexMatch / RangeMatch / PresentMatch / StringMatch. *)
+Record hmatch := mkh { h_kind : Z; h_inv : bool; h_a : Z; h_b : Z; h_name : str; h_arg : str;
+                       h_re : Matchers.re }.
+
+Definition to_mdt (m : md) : Matchers.mdt :=
+  fold_left (fun acc kv => Matchers.md_add acc (fst kv) (snd kv)) m [].
 
 Definition hdr_match (h : hmatch) (m : md) : bool :=
-  if h_kind h =? 0 then
-    (* NewHeaderPresentMatcher folds invert into present; Match: ok && len(joined) > 0 *)
-    let want := xorb (z2b (h_a h)) (h_inv h) in
-    let present := match value_from m (h_name h) with Some (_ :: _) => true | _ => false end in
-    Bool.eqb present want
-  else
-    match value_from m (h_name h) with
-    | None => false
-    | Some v =>
-      let b := if h_kind h =? 1 then str_eqb v (h_arg h) else
-               if h_kind h =? 2 then prefixb (h_arg h) v else
-               if h_kind h =? 3 then suffixb (h_arg h) v else
-               containsb (h_arg h) v in
-      xorb b (h_inv h)
-    end.
+  if h_kind h =? 11 then Matchers.hdr_regex_eval (h_inv h) (h_name h) (h_re h) (to_mdt m)
+  else Matchers.hdr_eval Matchers.tl true (h_kind h) (h_inv h) (h_a h) (h_b h) (h_name h) (h_arg h) (to_mdt m).
 
-(* hash policies: p_chan = false: HEADER, true: CHANNEL_ID *)
-Record hpol := mkp { p_chan : bool; p_term : bool; p_name : str }.
+(* hash policies: p_chan = false: HEADER, true: CHANNEL_ID; p_re = Some (regex, substitution) *)
+Record hpol := mkp { p_chan : bool; p_term : bool; p_name : str; p_re : option (str * str) }.
 
-(* routes. r_pkind 0 prefix, 1 exact; r_action = RouteActionType (1 = RouteActionRoute) *)
+(* routes. r_pkind 1 exact, 2 regex (r_re), otherwise prefix; r_action = RouteActionType
+   (1 = RouteActionRoute); r_plugin <> [] = the route names a cluster specifier plugin *)
 Record route := mkr {
-  r_pkind : Z; r_ci : bool; r_path : str; r_frac : option Z; r_action : Z;
-  r_hdrs : list hmatch; r_ws : list Z; r_pols : list hpol }.
+  r_pkind : Z; r_ci : bool; r_path : str; r_re : Matchers.re; r_frac : option Z; r_action : Z;
+  r_hdrs : list hmatch; r_ws : list Z; r_pols : list hpol; r_plugin : str }.
 
 Definition path_match (r : route) (method : str) : bool :=
+  if r_pkind r =? 2 then Matchers.rmatch (r_re r) method else
   let p := if r_ci r then upper (r_path r) else r_path r in
   let s := if r_ci r then upper method else method in
   if r_pkind r =? 1 then str_eqb p s else prefixb p s.
@@ -196,6 +192,9 @@ Definition hash_values (m em : md) (name : str) : list str :=
 
 Section Hash.
   Variable H : str -> Z.   (* xxhash.Sum64String *)
+  Variable RW : str -> str -> str -> str.   (* regexp.Compile(re).ReplaceAllString(input, subst) *)
+  Definition rewrite (p : hpol) (v : str) : str :=
+    match p_re p with Some (re, sub) => RW re sub v | None => v end.
   Fixpoint gh (chan : Z) (m em : md) (ps : list hpol) (hash : Z) (gen : bool) : Z * bool :=
     match ps with
     | [] => (hash, gen)
@@ -206,7 +205,7 @@ Section Hash.
       else if suffixb dashbin (p_name p) then gh chan m em r hash gen
       else match hash_values m em (p_name p) with
            | [] => gh chan m em r hash gen
-           | vs => let hash' := Z.lxor (rotl1 hash) (H (join vs)) in
+           | vs => let hash' := Z.lxor (rotl1 hash) (H (rewrite p (join vs))) in
                    if p_term p then (hash', true) else gh chan m em r hash' true
            end
     end.
@@ -221,19 +220,25 @@ End Hash.
 Definition match_md (m em : md) (has_extra : bool) : md :=
   if has_extra then filter (fun kv => negb (suffixb dashbin (fst kv))) (m ++ em) else m.
 
-(* obs [code; route; cluster; generated; hash]; code 0 ok, 1 no matched route,
-   2 unsupported action, 3 no cluster (Internal) *)
-Definition select_with (fm : Z -> Z -> bool) (H : str -> Z) (chan : Z) (rs : list route) (m em : md)
-           (has_extra : bool) (method : str) (t w : Z) : word :=
+(* obs [code; route; cluster; generated; hash] ++ plugin; code 0 ok, 1 no matched route,
+   2 unsupported action, 3 no cluster (Internal).  A route naming a cluster specifier plugin
+   has the single "cluster" cluster_specifier_plugin:<name> (weight 1): cluster = -1 and the
+   plugin name follows. *)
+Definition select_with (fm : Z -> Z -> bool) (H : str -> Z) (RW : str -> str -> str -> str) (chan : Z)
+           (rs : list route) (m em : md) (has_extra : bool) (method : str) (t w : Z) : word :=
   match first_match_from fm 0 rs method (match_md m em has_extra) t with
   | None => [1; 0; 0; 0; 0]
   | Some (i, r) =>
     if negb (r_action r =? 1) then [2; 0; 0; 0; 0] else
-    match wrr_pick (r_ws r) w with
+    let pick := match r_plugin r with
+                | [] => match wrr_pick (r_ws r) w with Some j => Some (j, []) | None => None end
+                | name => Some (-1, put_bytes name)
+                end in
+    match pick with
     | None => [3; 0; 0; 0; 0]
-    | Some j =>
-      let '(h, g) := gen_hash H chan m (if has_extra then em else []) (r_pols r) in
-      if g then [0; i; j; 1; i64 h] else [0; i; j; 0; 0]
+    | Some (j, tail) =>
+      let '(h, g) := gen_hash H RW chan m (if has_extra then em else []) (r_pols r) in
+      (if g then [0; i; j; 1; i64 h] else [0; i; j; 0; 0]) ++ tail
     end
   end.
 Definition select := select_with frac_match.
@@ -243,8 +248,16 @@ Definition select := select_with frac_match.
 
 Record state := mkst {
   s_routes : list route; s_vhs : list (list str);
-  s_md : md; s_emd : md; s_extra : bool; s_tbl : list (str * Z) }.
-Definition st0 : state := mkst [] [] [] [] false [].
+  s_md : md; s_emd : md; s_extra : bool; s_tbl : list (str * Z);
+  s_rw : list (str * str * str * str) }.
+Definition st0 : state := mkst [] [] [] [] false [] [].
+
+Fixpoint rw_get (tb : list (str * str * str * str)) (re sub v : str) : str :=
+  match tb with
+  | [] => v
+  | (re', sub', v', out) :: r =>
+    if str_eqb re' re && str_eqb sub' sub && str_eqb v' v then out else rw_get r re sub v
+  end.
 
 Fixpoint tbl_get (tb : list (str * Z)) (s : str) : Z :=
   match tb with
@@ -266,13 +279,22 @@ Definition get2 (l : list Z) : option (str * str) :=
   end.
 Definition get1 (l : list Z) : option str :=
   match get_bytes l with Some (a, []) => Some a | _ => None end.
+Definition get4 (l : list Z) : option (str * str * str * str) :=
+  match get_bytes l with
+  | Some (a, r) => match get_bytes r with
+                   | Some (b, r2) => match get2 r2 with Some (c, d) => Some (a, b, c, d) | None => None end
+                   | None => None
+                   end
+  | None => None
+  end.
 
 Definition million : Z := 1000000.
 
 (* decoded operations *)
 Inductive dop :=
-| DRoute (pk : Z) (ci hf : bool) (f act : Z) (p : str)
+| DRoute (pk : Z) (ci hf : bool) (f act : Z) (p : str) (re : Matchers.re)
 | DHdr (h : hmatch) | DClus (w : Z) | DPol (p : hpol) | DClrR
+| DPolRe (re sub : str) | DPlugin (name : str) | DRw (re sub v out : str)
 | DVh | DDom (d : str) | DClrV
 | DMd (k v : str) | DEmd (k v : str) | DExtra | DClrM
 | DTbl (h : Z) (x : str)
@@ -281,12 +303,25 @@ Inductive dop :=
 Definition decode (op : word) : option dop :=
   match op with
   | 10 :: pk :: ci :: hf :: f :: act :: rest =>
-    match get1 rest with Some p => Some (DRoute pk (z2b ci) (z2b hf) f act p) | None => None end
-  | 11 :: k :: inv :: a :: rest =>
-    match get2 rest with Some (n, arg) => Some (DHdr (mkh k (z2b inv) a n arg)) | None => None end
+    match get1 rest with Some p => Some (DRoute pk (z2b ci) (z2b hf) f act p Matchers.RNone) | None => None end
+  | 9 :: hf :: f :: act :: rest =>
+    match Matchers.get_re rest with Some re => Some (DRoute 2 false (z2b hf) f act [] re) | None => None end
+  | 11 :: k :: inv :: a :: b :: rest =>
+    match get2 rest with Some (n, arg) => Some (DHdr (mkh k (z2b inv) a b n arg Matchers.RNone)) | None => None end
+  | 8 :: inv :: rest =>
+    match get_bytes rest with
+    | Some (n, w) => match Matchers.get_re w with
+                     | Some re => Some (DHdr (mkh 11 (z2b inv) 0 0 n [] re))
+                     | None => None
+                     end
+    | None => None
+    end
+  | 18 :: rest => match get2 rest with Some (re, sub) => Some (DPolRe re sub) | None => None end
+  | 19 :: rest => match get1 rest with Some n => Some (DPlugin n) | None => None end
+  | 25 :: rest => match get4 rest with Some (re, sub, v, out) => Some (DRw re sub v out) | None => None end
   | [12; wt] => Some (DClus wt)
   | 13 :: ty :: term :: rest =>
-    match get1 rest with Some n => Some (DPol (mkp (z2b ty) (z2b term) n)) | None => None end
+    match get1 rest with Some n => Some (DPol (mkp (z2b ty) (z2b term) n None)) | None => None end
   | [14] => Some DClrR
   | [15] => Some DVh
   | 16 :: rest => match get1 rest with Some d => Some (DDom d) | None => None end
@@ -304,32 +339,40 @@ Definition decode (op : word) : option dop :=
   end.
 
 Definition add_hdr (h : hmatch) (r : route) : route :=
-  mkr (r_pkind r) (r_ci r) (r_path r) (r_frac r) (r_action r) (r_hdrs r ++ [h]) (r_ws r) (r_pols r).
+  mkr (r_pkind r) (r_ci r) (r_path r) (r_re r) (r_frac r) (r_action r) (r_hdrs r ++ [h]) (r_ws r) (r_pols r) (r_plugin r).
 Definition add_clus (w : Z) (r : route) : route :=
-  mkr (r_pkind r) (r_ci r) (r_path r) (r_frac r) (r_action r) (r_hdrs r) (r_ws r ++ [w]) (r_pols r).
+  mkr (r_pkind r) (r_ci r) (r_path r) (r_re r) (r_frac r) (r_action r) (r_hdrs r) (r_ws r ++ [w]) (r_pols r) (r_plugin r).
 Definition add_pol (p : hpol) (r : route) : route :=
-  mkr (r_pkind r) (r_ci r) (r_path r) (r_frac r) (r_action r) (r_hdrs r) (r_ws r) (r_pols r ++ [p]).
+  mkr (r_pkind r) (r_ci r) (r_path r) (r_re r) (r_frac r) (r_action r) (r_hdrs r) (r_ws r) (r_pols r ++ [p]) (r_plugin r).
+Definition set_pol_re (re sub : str) (r : route) : route :=
+  mkr (r_pkind r) (r_ci r) (r_path r) (r_re r) (r_frac r) (r_action r) (r_hdrs r) (r_ws r)
+      (upd_last (fun p => mkp (p_chan p) (p_term p) (p_name p) (Some (re, sub))) (r_pols r)) (r_plugin r).
+Definition set_plugin (n : str) (r : route) : route :=
+  mkr (r_pkind r) (r_ci r) (r_path r) (r_re r) (r_frac r) (r_action r) (r_hdrs r) (r_ws r) (r_pols r) n.
 
 Definition apply (chan : Z) (s : state) (o : dop) : state * word :=
-  let '(mkst rs vhs m em ex tb) := s in
+  let '(mkst rs vhs m em ex tb rw) := s in
   match o with
-  | DRoute pk ci hf f act p =>
-    (mkst (rs ++ [mkr pk ci p (if hf then Some f else None) act [] [] []]) vhs m em ex tb, [])
-  | DHdr h => (mkst (upd_last (add_hdr h) rs) vhs m em ex tb, [])
-  | DClus w => (mkst (upd_last (add_clus w) rs) vhs m em ex tb, [])
-  | DPol p => (mkst (upd_last (add_pol p) rs) vhs m em ex tb, [])
-  | DClrR => (mkst [] vhs m em ex tb, [])
-  | DVh => (mkst rs (vhs ++ [[]]) m em ex tb, [])
-  | DDom d => (mkst rs (upd_last (fun ds => ds ++ [d]) vhs) m em ex tb, [])
-  | DClrV => (mkst rs [] m em ex tb, [])
-  | DMd k v => (mkst rs vhs (m ++ [(k, v)]) em ex tb, [])
-  | DEmd k v => (mkst rs vhs m (em ++ [(k, v)]) true tb, [])
-  | DExtra => (mkst rs vhs m em true tb, [])
-  | DClrM => (mkst rs vhs [] [] false tb, [])
-  | DTbl h x => (mkst rs vhs m em ex ((x, u64 h) :: tb), [h])
+  | DRoute pk ci hf f act p re =>
+    (mkst (rs ++ [mkr pk ci p re (if hf then Some f else None) act [] [] [] []]) vhs m em ex tb rw, [])
+  | DPolRe re sub => (mkst (upd_last (set_pol_re re sub) rs) vhs m em ex tb rw, [])
+  | DPlugin n => (mkst (upd_last (set_plugin n) rs) vhs m em ex tb rw, [])
+  | DRw re sub v out => (mkst rs vhs m em ex tb ((re, sub, v, out) :: rw), put_bytes out)
+  | DHdr h => (mkst (upd_last (add_hdr h) rs) vhs m em ex tb rw, [])
+  | DClus w => (mkst (upd_last (add_clus w) rs) vhs m em ex tb rw, [])
+  | DPol p => (mkst (upd_last (add_pol p) rs) vhs m em ex tb rw, [])
+  | DClrR => (mkst [] vhs m em ex tb rw, [])
+  | DVh => (mkst rs (vhs ++ [[]]) m em ex tb rw, [])
+  | DDom d => (mkst rs (upd_last (fun ds => ds ++ [d]) vhs) m em ex tb rw, [])
+  | DClrV => (mkst rs [] m em ex tb rw, [])
+  | DMd k v => (mkst rs vhs (m ++ [(k, v)]) em ex tb rw, [])
+  | DEmd k v => (mkst rs vhs m (em ++ [(k, v)]) true tb rw, [])
+  | DExtra => (mkst rs vhs m em true tb rw, [])
+  | DClrM => (mkst rs vhs [] [] false tb rw, [])
+  | DTbl h x => (mkst rs vhs m em ex ((x, u64 h) :: tb) rw, [h])
   | QVhost host => (s, [match find_best host vhs with Some i => i | None => -1 end])
   | QFrac f t => (s, [b2z (frac_match f t)])
-  | QSelect t w method => (s, select (tbl_get tb) (u64 chan) rs m em ex method t w)
+  | QSelect t w method => (s, select (tbl_get tb) (rw_get rw) (u64 chan) rs m em ex method t w)
   | QMatch t method => (s, map (fun r => b2z (route_match r method m t)) rs)
   end.
 
@@ -354,7 +397,8 @@ Definition run (cfg : word) (ops : list word) : option (list word) :=
 (* ------------------------------------------------------------------ *)
 (* the property on observations                                         *)
 (* clause 1: the virtual host returned is the property's best match (vhost_ref)
-   clause 2: the route used is the first whose path, header and fraction matchers match
+   clause 2: the route used is the first whose path, header and fraction matchers match;
+             every route's CompositeMatcher.Match equals path && headers && fraction
              (for a draw equal to a fraction either reading is accepted here, see 9)
    clause 3: the cluster is the one whose cumulative weight interval contains the draw
    clause 4: the request hash is the rotate-xor fold over the configured policy inputs
@@ -362,7 +406,7 @@ Definition run (cfg : word) (ops : list word) : option (list word) :=
    clause 9: (known finding) a draw t = f does not match / does not decide the route *)
 
 Definition clause_op (chan : Z) (s : state) (o : dop) (obs : word) : list (Z * Z * bool) :=
-  let '(mkst rs vhs m em ex tb) := s in
+  let '(mkst rs vhs m em ex tb rw) := s in
   match o with
   | QVhost host =>
     match obs with
@@ -375,18 +419,22 @@ Definition clause_op (chan : Z) (s : state) (o : dop) (obs : word) : list (Z * Z
     | _ => [(5, f, false)]
     end
   | QSelect t w method =>
-    let spec := select_with frac_spec (tbl_get tb) (u64 chan) rs m em ex method t w in
-    let impl := select_with frac_match (tbl_get tb) (u64 chan) rs m em ex method t w in
+    let spec := select_with frac_spec (tbl_get tb) (rw_get rw) (u64 chan) rs m em ex method t w in
+    let impl := select_with frac_match (tbl_get tb) (rw_get rw) (u64 chan) rs m em ex method t w in
     match obs, spec, impl with
-    | [c; i; j; g; h], [c1; i1; j1; g1; h1], [c2; i2; j2; g2; h2] =>
+    | c :: i :: j :: g :: h :: tl0, c1 :: i1 :: j1 :: g1 :: h1 :: tl1, c2 :: i2 :: j2 :: g2 :: h2 :: tl2 =>
       let is1 := (c =? c1) && (i =? i1) in
       let is2 := (c =? c2) && (i =? i2) in
       [(2, i, is1 || is2);
-       (3, j, (is1 && (j =? j1)) || (is2 && (j =? j2)));
+       (3, j, (is1 && (j =? j1) && word_eqb tl0 tl1) || (is2 && (j =? j2) && word_eqb tl0 tl2));
        (4, g, (is1 && (g =? g1) && (h =? h1)) || (is2 && (g =? g2) && (h =? h2)));
        (9, i, is1)]
     | _, _, _ => [(2, 0, false)]
     end
+  | QMatch t method =>
+    let spec := map (fun r => b2z (route_match_with frac_spec r method m t)) rs in
+    let impl := map (fun r => b2z (route_match_with frac_match r method m t)) rs in
+    [(2, 0, word_eqb obs spec || word_eqb obs impl); (9, 0, word_eqb obs spec)]
   | _ => []
   end.
 
